@@ -262,6 +262,8 @@ func (i *interpreter) evalSimple(v ssa.Value, depth int) (value, bool) {
 		return constValue(v), true
 	case *ssa.Function:
 		return v, true
+	case *ssa.Global:
+		return i.global(v), true
 	case *ssa.MakeInterface:
 		x, ok := i.evalSimple(v.X, depth+1)
 		if !ok {
@@ -798,7 +800,11 @@ func init() {
 		},
 		"runtime.KeepAlive":   func(fr *frame, a []value) value { return nil },
 		"runtime.SetFinalizer": func(fr *frame, a []value) value { return nil },
-		"time.Sleep":          func(fr *frame, a []value) value { fr.i.yieldPoint("sleep"); return nil },
+		"time.Sleep": func(fr *frame, a []value) value {
+			// sleeping lets every other runnable goroutine make progress
+			fr.i.sleepYield()
+			return nil
+		},
 		"os.Exit":             func(fr *frame, a []value) value { panic(targetPanic{iface{types.Typ[types.String], "os.Exit"}, fr.pos(token.NoPos)}) },
 
 		"errors.As": nativeErrorsAs,
